@@ -2,7 +2,7 @@
    (what SyncRunnerTemplate.run / run_superstep_sync emit: RunStart; per executed node NodeStart, [RouteDecision],
    NodeEnd | NodeError; RunEnd with the status the caller sees), and the theorem that EVERY such stream is a well-formed
    span tree (accepted by Events.wf_b).  Span ids are first-occurrence indices, as the harness canonicalises them. *)
-From HG Require Import Base Engine Events EventsProofs.
+From HG Require Import Base Engine Exec Events EventsProofs.
 
 (* one executed node of a run: its name, whether it is a gate that made a decision, whether it raised *)
 Record nexec := mk_nexec { x_name : positive; x_route : bool; x_err : bool }.
@@ -125,6 +125,18 @@ Definition sync_run_events (g : graph) (log : list (list call)) (failed node_fai
   run_events (execs_of_log g log node_failed) failed.
 
 Theorem sync_run_events_wf g log failed node_failed : wf_b failed (sync_run_events g log failed node_failed) = true.
+Proof. apply run_events_wf. Qed.
+
+(* the stream of a model run, from its packaged result: FAILED with a node's error = the last call raised; FAILED with
+   InfiniteLoopError or with the KeyError of an unresolvable input = no node span is left in error *)
+Definition err_is (e : option err) (x : err) : bool := match e with Some y => Pos.eqb x y | None => false end.
+
+Definition events_of_result (g : graph) (res : result) : list event :=
+  let failed := Nat.eqb (res_status res) 1 in
+  let node_failed := failed && negb (err_is (res_err res) EInfiniteLoop) && negb (err_is (res_err res) EKeyError) in
+  sync_run_events g (res_log res) failed node_failed.
+
+Theorem events_of_result_wf g res : wf_b (Nat.eqb (res_status res) 1) (events_of_result g res) = true.
 Proof. apply run_events_wf. Qed.
 
 (* comparison helper for the cases files: kinds, spans, parents and node names (run events carry no node name) *)
